@@ -1,6 +1,9 @@
 #!/bin/bash
 # runbenpatches.sh <dir>: run all twenty checks on every <dir>/<k>/patch.diff (behaviour-preserving changes written by
-# independent sub-agents); anything reported is a false alarm to be triaged. Three at a time.
+# independent sub-agents); anything reported is a false alarm to be triaged. Three at a time. Results go to a scratch
+# directory under /var/tmp (removed afterwards), never into <dir>.
 d=$1
-ls -d $d/*/ | xargs -P 3 -I{} sh -c '/verif/selftest/runpatch.sh {}patch.diff > {}result.txt 2>&1'
-for k in $(ls -d $d/*/ | sort -V); do echo "== $k"; cat $k/result.txt; done
+out=$(mktemp -d /var/tmp/verif-ben.XXXXXX)
+for k in $(ls -d $d/*/ | xargs -n1 basename); do echo $k; done | xargs -P 3 -I{} sh -c "/verif/selftest/runpatch.sh $d/{}/patch.diff > $out/{}.txt 2>&1"
+for k in $(ls -d $d/*/ | xargs -n1 basename | sort -V); do echo "== $d/$k/"; cat $out/$k.txt; done
+rm -rf "$out"
